@@ -45,7 +45,9 @@ class Parser:
             raise FormulaError(expression)
         builder = self.ast_builder(match=match)
         filters, tokens, stack = self.filters, [], []
-        Parenthesis('(').ast(tokens, stack, builder)
+        token = Parenthesis('(')
+        token.attr['root'] = True
+        token.ast(tokens, stack, builder)
         while expr:
             for f in filters:
                 try:
@@ -59,7 +61,9 @@ class Parser:
                     raise FormulaError(expression)
             else:
                 raise FormulaError(expression)
-        Parenthesis(')').ast(tokens, stack, builder)
+        token = Parenthesis(')')
+        token.attr['root'] = True
+        token.ast(tokens, stack, builder)
         tokens = tokens[1:-1]
         while stack:
             if isinstance(stack[-1], Parenthesis):
